@@ -23,7 +23,7 @@ def hosts_upto(depth, labels=LABELS):
 H3 = hosts_upto(3)
 H4 = hosts_upto(4)
 
-FORMS = ["%s", "http://%s", "https://%s/p/q?x=1#f", "//%s:8080/", "http://u:p@%s:81/x", "%s/path"]
+FORMS = ["%s", "http://%s", "https://%s/p/q?x=1#f", "//%s:8080/", "http://u:p@%s:81/x", "%s/path", "%s:8080/x"]   # the last: no scheme, a port
 
 
 def norm_label(l):
@@ -186,7 +186,7 @@ def main():
             return h
         hist = tuple(rh() for _ in range(rnd.randint(3, 12)))
         qs = [rh().strip() for _ in range(10)] + [h.strip() for h in hist] + ["x." + h.strip() for h in hist[:4]] + [h.strip().upper() for h in hist[:3]]
-        added = check_history(col, hist, qs, FORMS[:2] + FORMS[3:4])
+        added = check_history(col, hist, qs, FORMS[:2] + FORMS[3:4] + FORMS[6:7])
         col.nontriv(("rnd", i))
         if i < 2:
             col.sample({"adds": list(hist), "queries": qs[:4]})
@@ -195,7 +195,7 @@ def main():
         qs = list(chain) + ["y." + c for c in chain] + [c.upper() for c in chain]
         for L in (1, 2):
             for hist in itertools.permutations(chain, L):
-                check_history(col, hist, qs, FORMS[:2] + FORMS[3:5])
+                check_history(col, hist, qs, FORMS[:2] + FORMS[3:5] + FORMS[6:7])
                 col.nontriv(("special-like", hist))
     col.sample({"adds": ["a.b", "b", "b.a.b"], "queries": "all hostnames of depth <= 4 over {a,b}, embedded in URL forms %r" % (FORMS,)})
     col.exhaustive = True
